@@ -239,6 +239,12 @@ func chunkRange(req *http.Request) (start, end int64, _ error) {
 	}
 
 	if rangeOK && req.ContentLength >= 0 {
+		if start == 0 && end == 0 && req.ContentLength == 1 {
+			// "0-0" is both how the empty range at offset zero is written and
+			// the inclusive range that holds only the first byte.
+			// The body length tells us which of the two this is.
+			end = 1
+		}
 		rangeLength := end - start
 		if rangeLength != req.ContentLength {
 			return 0, 0, badAPIUseError("Content-Range implies a length of %d but Content-Length is %d", rangeLength, req.ContentLength)
